@@ -172,7 +172,7 @@ func (op _OpContextType) decodeInst(x uint32) (as abi.As, arg *abi.AsArgument, a
 		arg.Rs2 = op.decodeRegI(rk)
 		return
 	case OpFormatType_3R_sa2:
-		imm := int32(uimm(x, 10, 2))
+		imm := int32(uimm(x, 15, 2))
 		argRaw.Rd = rd
 		argRaw.Rs1 = rj
 		argRaw.Rs2 = rk
@@ -183,7 +183,7 @@ func (op _OpContextType) decodeInst(x uint32) (as abi.As, arg *abi.AsArgument, a
 		arg.Imm = imm
 		return
 	case OpFormatType_3R_sa3:
-		imm := int32(uimm(x, 10, 3))
+		imm := int32(uimm(x, 15, 3))
 		argRaw.Rd = rd
 		argRaw.Rs1 = rj
 		argRaw.Rs2 = rk
@@ -205,28 +205,30 @@ func (op _OpContextType) decodeInst(x uint32) (as abi.As, arg *abi.AsArgument, a
 		argRaw.Rs1 = rj
 		argRaw.Imm = imm
 		arg.Rd = abi.RegType(code)
-		argRaw.Rs1 = rj
+		arg.Rs1 = op.decodeRegI(rj)
 		arg.Imm = imm
 		return
 	case OpFormatType_2R_msbw_lsbw:
+		msbw, lsbw := uimm(x, 16, 5), uimm(x, 10, 5)
 		argRaw.Rd = rd
 		argRaw.Rs1 = rj
-		argRaw.Rs2 = rk
-		argRaw.Rs3 = fa
+		argRaw.Rs2 = msbw
+		argRaw.Rs3 = lsbw
 		arg.Rd = op.decodeRegI(rd)
 		arg.Rs1 = op.decodeRegI(rj)
-		arg.Rs2 = abi.RegType(rk)
-		arg.Rs3 = abi.RegType(fa)
+		arg.Rs2 = abi.RegType(msbw)
+		arg.Rs3 = abi.RegType(lsbw)
 		return
 	case OpFormatType_2R_msbd_lsbd:
+		msbd, lsbd := uimm(x, 16, 6), uimm(x, 10, 6)
 		argRaw.Rd = rd
 		argRaw.Rs1 = rj
-		argRaw.Rs2 = rk
-		argRaw.Rs3 = fa
+		argRaw.Rs2 = msbd
+		argRaw.Rs3 = lsbd
 		arg.Rd = op.decodeRegI(rd)
 		arg.Rs1 = op.decodeRegI(rj)
-		arg.Rs2 = abi.RegType(rk)
-		arg.Rs3 = abi.RegType(fa)
+		arg.Rs2 = abi.RegType(msbd)
+		arg.Rs3 = abi.RegType(lsbd)
 		return
 	case OpFormatType_fcsr_1R:
 		argRaw.Rd = rd
